@@ -16,10 +16,15 @@ with a fresh install made by the same code in the same mode:
 * a second run raises nothing and leaves the full logical dump (``iterdump``) unchanged.
 
 Fault tier: before the run, one (or two consecutive) injected failures of the migration
-run — a statement denied by an authorizer callback at its k-th invocation, a VM interrupt
-at the k-th progress callback, a true ``os._exit`` of a forked child at the k-th
-authorizer invocation or right after the k-th Python-level sqlite call — for every k the
-clean run reaches; afterwards a clean re-run must converge to the same three conditions.
+run, for every k the clean run reaches:
+  deny@k       the k-th authorizer invocation denies its statement (the runner's own error path runs);
+  crash_auth@k from the k-th authorizer invocation on everything is denied, also ROLLBACK/COMMIT
+               (in-process crash emulation: nothing after that instant is persisted, then the connection is closed);
+  crash_py@k   a BaseException right after the k-th Python-level sqlite call and on every later call;
+  interrupt@k  the statement running at the k-th VM instruction is interrupted;
+  kill_auth@k / kill_py@k  a true os._exit(9) of a forked child at the same points (strided: forks are slow here).
+Afterwards a clean re-run must converge to the same three conditions.  The state the failure
+left behind is snapshotted first and names the mechanism in the violation signature.
 """
 from __future__ import annotations
 
@@ -36,8 +41,9 @@ TECHNIQUE = ("runtime monitoring: enumeration of starting schemas x connection m
              "real migration runner, decided by comparing normalised sqlite_master/PRAGMA snapshots and schema_migrations with a fresh install")
 LEVEL_TEXT = ("The space of starting schemas named by the property (fresh, each prefix of the packaged migrations, legacy user_version "
               "databases) is finite and enumerated completely in both connection modes; failure points of one run (every authorizer "
-              "invocation, every Python-level sqlite call, VM-step interrupts) are enumerated per starting schema (strided in the quick "
-              "tier, complete in the thorough tier, plus sampled double failures).")
+              "invocation, every Python-level sqlite call, VM-step interrupts) are enumerated per starting schema: strided in the quick "
+              "tier; in the thorough tier complete for deny / in-process crash emulation, every 16th point for true os._exit kills, "
+              "<=200 interrupt points, plus 120 sampled double failures per starting schema.")
 LEVEL_NOTE = ("Trusted: the sqlite3 module and SQLite's own atomic commit, os.fork/_exit as the crash model (no power-loss / torn-page model), "
               "the snapshot normaliser in this file. Legacy databases are synthesised from the packaged scripts (the legacy runner is not in the repo).")
 DESIGN_REF = "§5 C28"
